@@ -993,6 +993,7 @@ func runC04(c *Ctx) {
 		"lag=n: the peer holds the replies to chunk requests until more than n are pending (several requests in flight at the cut); thorough adds more lags; " +
 		"kind stress: g goroutines loop Stat/ReadAt/multi-chunk ReadAt while the link is cut at a seeded byte/write index; " +
 		"non-trivial = the cut falls inside a frame or while >= 2 requests are unanswered")
+	c04ShortReads(c)
 
 	// warm up lazily started runtime machinery before any baseline is taken
 	c04Session(0, "eof", -1, -1, false, 0)
